@@ -1,7 +1,8 @@
 #!/usr/bin/env python3
 """Confirm a seeded change and run our checks against it.
 
-usage: seed_eval.py <scratch worktree of /repo> <k> <seed id> <property> <check id> [<check id> ...]
+usage: seed_eval.py <scratch worktree of /repo | -> <k> <seed id> <property> <check id> [<check id> ...]
+       ('-': re-evaluate from seeded/<seed id>/ on a fresh scratch worktree of the current /repo HEAD)
 
 In the scratch worktree (never in /repo): apply out/<k>/patch.diff, run the repository's test suite (must pass),
 run the demonstration (must fail with the change, pass without), run the given checks with the patched package
@@ -27,8 +28,13 @@ def sh(cmd, cwd=None, env=None, timeout=3600):
 
 def main():
     wt, k, sid, prop, *checks = sys.argv[1:]
-    wt = Path(wt)
-    out = wt / "out" / k
+    if wt == "-":
+        # re-evaluation from the stored artefacts (seeded/<id>/), always on a fresh scratch worktree of the current HEAD
+        out = VERIF / "seeded" / sid
+        os.environ["SEED_FRESH_BASE"] = "1"
+    else:
+        wt = Path(wt)
+        out = wt / "out" / k
     if os.environ.get("SEED_FRESH_BASE") == "1":
         # evaluate on top of the *current* /repo HEAD (the seed's own worktree may predate later fix commits):
         # fresh scratch worktree, removed afterwards
@@ -77,10 +83,12 @@ def evaluate(wt, out, sid, prop, checks):
     # regenerate evidence against the real /repo is the caller's business; copy the artefacts
     dst = VERIF / "seeded" / sid
     dst.mkdir(parents=True, exist_ok=True)
-    shutil.copy(out / "patch.diff", dst / "patch.diff")
-    shutil.copy(out / "demo.py", dst / "demo.py")
+    if out.resolve() != dst.resolve():
+        shutil.copy(out / "patch.diff", dst / "patch.diff")
+        shutil.copy(out / "demo.py", dst / "demo.py")
     if (out / "notes.md").exists():
-        shutil.copy(out / "notes.md", dst / "notes.md")
+        if out.resolve() != dst.resolve():
+            shutil.copy(out / "notes.md", dst / "notes.md")
         notes = (out / "notes.md").read_text()
         meta["needs_to_manifest"] = notes[:1500]
     meta["detected_by"] = [c for c, r in meta.get("checks", {}).items() if r["exit"] == 1]
